@@ -225,6 +225,39 @@ def translate_all(repo):
                                   'Proof. intros. unfold gen_flags_new, flags_new, set_bit. destruct control, l, s, o, p; cbv iota; guard2 (version <=? 15) (15 <? version). Qed.\n')]
     except Unsupported as e:
         fails['gen_flags_new'] = str(e)
+    # bitmask AVPs (C17): the constructor and the two accessors of each of the four types; an accessor belongs to the
+    # constructor parameter it is named after (is_<parameter>)
+    for struct in config.K32BM:
+        fnew = crate['fns'].get((struct, 'new'))
+        pnames = [pn for pn, _ in fnew[2]] if fnew else []
+        accs = [k[1] for k in crate['fns'] if k[0] == struct and k[1].startswith('is_')]
+
+        def bm_new(struct=struct, pnames=pnames):
+            if len(pnames) != 2:
+                raise Unsupported('%s::new no longer takes two parameters' % struct)
+            tr = trans.Tr(crate, config)
+            body = tr.pure_fn(struct, 'new', None, {pnames[0]: P('x'), pnames[1]: P('y')})
+            n = 'gen_bm_new_%s' % struct
+            defs[n] = 'Definition %s (x y : bool) : avp :=\n  %s.\n' % (n, body)
+            ties[n] = [('equal for all arguments', 'Lemma tie : forall x y, %s x y = A32 %s (bm_new Bm%s x y).\nProof. intros x y. destruct x, y; reflexivity. Qed.\n'
+                        % (n, struct, struct))]
+        try:
+            bm_new()
+        except Unsupported as e:
+            fails['gen_bm_new_%s' % struct] = str(e)
+        for k, which in ((0, 'first'), (1, 'second')):
+            n = 'gen_bm_%s_%s' % (which, struct)
+            try:
+                if len(pnames) != 2 or ('is_' + pnames[k]) not in accs:
+                    raise Unsupported('no accessor named after parameter %d of %s::new' % (k + 1, struct))
+                tr = trans.Tr(crate, config)
+                body = tr.pure_fn(struct, 'is_' + pnames[k], trans.Rec(struct, [('data', P('w'))]), {})
+                defs[n] = 'Definition %s (w : N) : bool :=\n  %s.\n' % (n, body)
+                ties[n] = [('equal for all arguments', 'Lemma tie : forall w, %s w = acc_%s Bm%s w.\nProof. intros w. reflexivity. Qed.\n' % (n, which, struct))]
+                HEADERS[n] = HEADER.replace('Model.Decode Model.Encode', 'Model.Decode Model.Encode Model.Ops')
+            except Unsupported as e:
+                fails[n] = str(e)
+        HEADERS['gen_bm_new_%s' % struct] = HEADER.replace('Model.Decode Model.Encode', 'Model.Decode Model.Encode Model.Ops')
     # the slice / Vec code: SliceReader, VecWriter, AVP::hide, AVP::reveal (rs2v/vec.py, rs2v/vecbuild.py)
     try:
         from . import vecbuild
